@@ -474,6 +474,18 @@ class C20(Spec):
                     qs.append(q)
         opts = usage_options(os.path.join(REPO, 'tools/jwt-verify.c'))
         write_opts_header(os.path.join(bld.gen, 'c20_verify_opts.h'), opts)
+        # key2jwk: fixed-width EC members (process_ec_key driven directly)
+        k2j = bld.goto_unit('tools/key2jwk.c', extra=['-Dmain=tool_main'], suffix='tool')
+        for bits in ((256,) if tier == 'quick' else (256, 384, 521)):
+            w = (bits + 7) // 8
+            sl = ((w + 2) // 3) * 4 + 1
+            q = Query('C20.key2jwk.ec.%d' % bits, 'tool_key2jwk.c', ['tools/key2jwk.c', 'libjwt/jwt.c', 'libjwt/jwt-memory.c', 'libjwt/base64.c'],
+                      models=['alloc', 'jansson_model', 'env', 'provider_stub', 'openssl_stubs', 'openssl_stubs_key2jwk'],
+                      defines=['BITS=%d' % bits, 'VJ_SLEN=%d' % sl, 'VJ_MAXM=5', 'VF_CAP=%d' % (sl + 4), 'VO_WITH_JWK', 'VF_FREE_NOOP'],
+                      unwind=sl + 28, checks='verdict', budget=1200, mem_gb=12,
+                      bounds={'curve bits': bits, 'x, y, d': 'every integer below 2^%d (all lengths 0..%d bytes)' % (8 * w, w)})
+            q.unit_override = {'tools/key2jwk.c': k2j}
+            qs.append(q)
         names = ['short', 'short_detached', 'long', 'long_detached']
         for wi, (sc, ln, ha) in enumerate(opts):
             for sp in range(4):
@@ -660,8 +672,8 @@ _T = {
          'edit menu: delete/replace-by-int/replace-by-string/add-bool on exp,nbf,iss; delete-all claims/headers; overwrite alg header'),
  'C20': ('Model checking of the real jwt-verify main() over API stubs: for n tokens (argv and stdin routes) and ALL 2^n verdict vectors exit '
          'status == 0 <=> all verified (n up to 257 / 513); every option documented in usage() (parsed from the source each run) in every spelling '
-         'is accepted and its argument reaches the library.',
-         'getopt_long is a model (no permutation, no abbreviations); jwt-generate/key2jwk/jwk2key are covered only through the library properties'),
+         'is accepted and its argument reaches the library; key2jwk writes EC x, y, d with the full field width for every integer value.',
+         'getopt_long is a model (no permutation, no abbreviations); key2jwk: only process_ec_key (fixed-width EC members) is encoded; jwt-generate options and jwk2key are covered only through the library properties'),
 }
 for _k, (_a, _b) in _T.items():
     if _k in PROPS:
